@@ -18,6 +18,19 @@ CLAIMED = {
     ),
 }
 
+CLAIMED["C05"] = dict(
+    text="Lean 4 theorems C05_sound / C05_complete / C05_exact: for every glob (without a lone final backslash) and every "
+         "path of any length, the model of AnnotationsItem.matches accepts the path iff it is in the declaratively "
+         "specified language (sandwich Narrow <= impl <= Wide, and impl = Wide exactly); proved through a verified "
+         "backtracking matcher (bt_sound/bt_complete) for the regex fragment the code emits. Tied to the code by an "
+         "exhaustive glob x path differential (781x781 quick, 3906x3906 thorough) plus random items.",
+    note="Trusted: Lean kernel, the correspondence harness, CPython re for the emitted fragment (mirrored by Py.Re.bt and "
+         "compared exhaustively), the reading of the written language in Spec/Glob.lean ('**/' may match zero directories "
+         "in the wide reading). A lone final backslash has no defined meaning and is excluded (wfGlob).",
+    technique="Lean 4 proof (language equality via verified regex matcher) + exhaustive model/implementation differential",
+    design="§4 C05",
+)
+
 NOT_YET = {}
 
 
